@@ -6,10 +6,11 @@
    Part "num"   : numbered-variable cases (heads, plain/specific variables, one occurrence, a dependent on it)
 
    Graphs: symbols s1..sn in this declaration order (all labelled graphs are enumerated, so every declaration
-   order of every graph shape occurs), each independent or dependent; a dependent's dependencies are any subset of
-   the declared symbols (itself included) + the constant "k" + the undefined name "u"  (n <= 3), or any subset of
-   the OTHER symbols + at most one of "k", "u" (n = 4).  Constants: k = 7, s1 = 91, s3 = 93 -- s1 and s3 are shadowed
-   whenever they are declared and must appear as constants when they are not.                                  *)
+   order of every graph shape occurs), each independent or dependent.  n <= 3: a dependent's dependencies are any
+   subset of the declared symbols (itself included) + the constant "k" + the undefined name "u".  n = 4: any subset of
+   the OTHER symbols, and at most one dependent of the graph additionally depends on "k" or on "u" (fields xs, xv).
+   Constants: k = 7, s1 = 91, s3 = 93 -- s1 and s3 are shadowed whenever they are declared and must appear as
+   constants when they are not.                                                                               *)
 EXTENDS DepResolve
 CONSTANTS MaxN, NS, Part, MaxIdx
 
@@ -17,7 +18,8 @@ Sym == <<"s1", "s2", "s3", "s4">>
 Scale == <<1, 10, 100, 1000>>
 GraphConsts == << [n |-> "k", v |-> 7], [n |-> "s1", v |-> 91], [n |-> "s3", v |-> 93] >>
 Ks(cs) == <<cs.k1, cs.k2, cs.k3, cs.k4>>
-Ds(cs) == <<cs.d1, cs.d2, cs.d3, cs.d4>>
+Xd(cs, i) == IF cs.xs = i THEN {cs.xv} ELSE {}
+Ds(cs) == <<cs.d1 \cup Xd(cs, 1), cs.d2 \cup Xd(cs, 2), cs.d3 \cup Xd(cs, 3), cs.d4 \cup Xd(cs, 4)>>
 ExpandGraph(cs) ==
   [decl |-> [i \in 1..cs.n |-> [n |-> Sym[i], k |-> Ks(cs)[i], deps |-> Ds(cs)[i],
                                 draws |-> IF Ks(cs)[i] = "ind" THEN [j \in 1..NS |-> Scale[i] * j] ELSE <<>>]],
@@ -52,11 +54,15 @@ Ext == {"k", "u"}
 DepChoices(i, n, ki) ==
   IF ki # "dep" THEN {{}}
   ELSE IF n <= 3 THEN SUBSET ({Sym[j] : j \in 1..n} \cup Ext)
-  ELSE {D \cup E : D \in SUBSET {Sym[j] : j \in (1..n) \ {i}}, E \in {{}, {"k"}, {"u"}}}
+  ELSE SUBSET {Sym[j] : j \in (1..n) \ {i}}
+ExtChoices(n, kv) == IF n <= 3 THEN {<<0, "k">>}
+                     ELSE {<<0, "k">>} \cup {<<i, x>> : i \in {j \in 1..n : kv[j] = "dep"}, x \in Ext}
 KindVecs(n) == {kv \in [1..4 -> {"ind", "dep", "none"}] : \A i \in 1..4 : (kv[i] = "none") <=> (i > n)}
-GraphSeeds == UNION {UNION {{[kind |-> "seed", n |-> n, k1 |-> kv[1], k2 |-> kv[2], k3 |-> kv[3], k4 |-> kv[4], d1 |-> d1]
-                                 : d1 \in DepChoices(1, n, kv[1])} : kv \in KindVecs(n)} : n \in 0..MaxN}
+GraphSeeds == UNION {UNION {{[kind |-> "seed", n |-> n, k1 |-> kv[1], k2 |-> kv[2], k3 |-> kv[3], k4 |-> kv[4], d1 |-> d1,
+                              xs |-> e[1], xv |-> e[2]]
+                                 : d1 \in DepChoices(1, n, kv[1]), e \in ExtChoices(n, kv)} : kv \in KindVecs(n)} : n \in 0..MaxN}
 GraphCases(s) == [kind : {"case"}, n : {s.n}, k1 : {s.k1}, k2 : {s.k2}, k3 : {s.k3}, k4 : {s.k4}, d1 : {s.d1},
+                  xs : {s.xs}, xv : {s.xv},
                   d2 : DepChoices(2, s.n, s.k2), d3 : DepChoices(3, s.n, s.k3), d4 : DepChoices(4, s.n, s.k4)]
 NumSeeds == {[kind |-> "seed", heads |-> h, pa |-> pa, sp |-> sp, oh |-> oh]
                : h \in DOMAIN HeadSets, pa \in BOOLEAN, sp \in BOOLEAN, oh \in {"a", "ab", "b", "A"}}
